@@ -33,7 +33,7 @@ LEVEL_NOTE = ("Partial by nature: convergence of the optimiser and accuracy of t
 TECHNIQUE = "Coq proof of table-level optimality on the combine_DL model (from C06 lemmas) + real four-stage pipeline runs checked against independent closed-form description lengths"
 
 
-def datasets(ctx, lib, n, count):
+def datasets(ctx, lib, n, count, marginal_count=0):
     """planted truths drawn from the library's own variants (preferring variants with a non-empty chain), noise, seeds"""
     import liboracle as lo
     import fitlib
@@ -72,19 +72,44 @@ def datasets(ctx, lib, n, count):
     allsing = [i for i in singular if all(_sing(j) for _, _, j in byu[lib["matches"][i]])]
     if allsing:
         singular = allsing
+    # a one-parameter truth measured at about 3 sigma, so that |theta| is just below one coding step (|theta| sqrt(I/12) = 0.92): the
+    # variants of its unique then part ways -- one that is defined at theta = 0 is snapped there (no parameter code, worse likelihood),
+    # one that is singular at theta = 0 keeps the parameter for log 2 -- and only the minimum over the full description length
+    # (likelihood included) ranks the unique correctly
+    marginal = [i for _, i in cand if fitlib.nparams_of(lib["all"][i]) == 1 and _sing(i)
+                and any(not _sing(j) for _, _, j in byu[lib["matches"][i]])]
+    marginal = marginal or [i for _, i in cand if fitlib.nparams_of(lib["all"][i]) == 1]
     modes = ["chain", "extreme", "multi", "any", "extreme", "multi", "chain", "any"]
     out = []
     x = np.linspace(0.5, 3.0, 30)
-    tries = 0
-    while len(out) < count and tries < 200 and cand:
-        tries += 1
-        mode = modes[(len(out) + tries // 12) % len(modes)]
+    import mpmath as mp
+
+    def margin(rec):
+        """how far the planted tree's description length lies below that of every tree of another unique (affine trees, closed form):
+        a data set where another function describes the data as well cannot show a mis-ranking of the planted unique"""
+        nm = fitlib.mdl_numeric(rec["truth"], lib["trees"][rec["truth_index"]], 1, rec["x"], rec["y"], rec["sig"], rec["theta"])
+        if nm is None or not math.isfinite(nm["DL"]):
+            return -1e9
+        mu = lib["matches"][rec["truth_index"]]
+        best = float("inf")
+        for j, (sj, lj) in enumerate(zip(lib["all"], lib["trees"])):
+            kj = fitlib.nparams_of(sj)
+            if lib["matches"][j] == mu or kj > 2 or "zoo" in sj or "nan" in sj:
+                continue
+            cf = fitlib.mdl_closed_form(sj, lj, kj, rec["x"], rec["y"], rec["sig"])
+            if cf is not None and math.isfinite(cf["DL"]):
+                best = min(best, cf["DL"])
+        return best - nm["DL"]
+
+    def attempt(mode, nextreme):
         scale = "moderate"
-        if mode == "multi" and multi:
+        if mode == "marginal" and marginal:
+            i = marginal[rng.randrange(len(marginal))]
+        elif mode == "multi" and multi:
             i = multi[rng.randrange(len(multi))]
         elif mode == "extreme" and singular:
             i = singular[rng.randrange(len(singular))]
-            scale = "large" if sum(1 for d in out if d["mode"] == "extreme") % 2 == 0 else "small"
+            scale = "large" if nextreme % 2 == 0 else "small"
         elif mode == "chain" and pri:
             _, i = pri[rng.randrange(len(pri))]
         else:
@@ -92,27 +117,70 @@ def datasets(ctx, lib, n, count):
         s = lib["all"][i]
         k = fitlib.nparams_of(s)
         lo_, hi_ = {"moderate": (0.5, 2.5), "large": (20.0, 80.0), "small": (0.01, 0.05)}[scale]
+        if mode == "marginal":
+            lo_, hi_ = 0.3, 5.0
         th = [rng.choice([-1, 1]) * rng.uniform(lo_, hi_) for _ in range(k)]
         try:
-            import mpmath as mp
             y0 = np.array([float(lo.eval_string(s, mp.mpf(float(xi)), [mp.mpf(t) for t in th])) for xi in x])
         except Exception:
-            continue
+            return None
+        if mode == "marginal" and k == 1 and np.mean(y0) > 0:
+            # prefer the sign of the parameter that makes the curve negative: powers of x (positive) then cannot stand in for the truth,
+            # so the planted unique is the one the ranking has to get right
+            try:
+                y1 = np.array([float(lo.eval_string(s, mp.mpf(float(xi)), [mp.mpf(-th[0])])) for xi in x])
+                if np.all(np.isfinite(y1)) and np.mean(y1) < 0:
+                    th, y0 = [-th[0]], y1
+            except Exception:
+                pass
         if not np.all(np.isfinite(y0)) or (np.ptp(y0) < 1e-3 and "x" in s) or np.max(np.abs(y0)) > 1e3:
-            continue
+            return None
         # the optimiser is an oracle of C04 (partial): truths with a singularity inside (or just outside) the data range give a
         # needle optimum that multi-start BFGS does not find -- recorded as a known finding on one stored data set
         # (harness/corpus/C04_pole.json); the generated data sets stay clear of that situation
         try:
             fine = np.array([float(lo.eval_string(s, mp.mpf(float(xi)), [mp.mpf(t) for t in th])) for xi in np.linspace(0.3, 3.2, 2000)])
         except Exception:
-            continue
+            return None
         if not np.all(np.isfinite(fine)) or np.max(np.abs(fine)) > 3 * (1 + np.max(np.abs(y0))):
-            continue
+            return None
         noise = rng.choice([0.05, 0.2, 0.5])
         nrng = np.random.default_rng(rng.randrange(10 ** 9))
-        y = y0 + nrng.normal(0, noise, size=len(x))
-        out.append({"truth_index": i, "truth": s, "needs_chain": i in needs_chain, "mode": mode, "scale": scale, "chain": [c for c in lib["subs"][i] if c.strip()], "theta": th, "noise": noise, "x": x.tolist(), "y": y.tolist(), "sig": [noise] * len(x)})
+        e = nrng.normal(0, 1, size=len(x))
+        if mode == "marginal" and k == 1:
+            h = 1e-6 * abs(th[0])
+            try:
+                g = np.array([float(lo.eval_string(s, mp.mpf(float(xi)), [mp.mpf(th[0] + h)]) - lo.eval_string(s, mp.mpf(float(xi)), [mp.mpf(th[0] - h)]))
+                              for xi in x]) / (2 * h)
+            except Exception:
+                return None
+            if not np.all(np.isfinite(g)) or g @ g < 1e-12:
+                return None
+            e -= g * (e @ g) / (g @ g)              # the maximum-likelihood parameter stays (to first order) the planted one
+            e *= math.sqrt(len(x) - 1) / np.linalg.norm(e)
+            noise = float(abs(th[0]) * math.sqrt(g @ g) / (0.92 * math.sqrt(12.0)))
+        y = y0 + noise * e
+        return ({"truth_index": i, "truth": s, "needs_chain": i in needs_chain, "mode": mode, "scale": scale, "chain": [c for c in lib["subs"][i] if c.strip()], "theta": th, "noise": noise, "x": x.tolist(), "y": y.tolist(), "sig": [noise] * len(x)})
+
+    tries = 0
+    for _ in range(marginal_count if marginal else 0):
+        pool = []
+        for _t in range(40):
+            rec = attempt("marginal", 0)
+            if rec is not None:
+                rec["margin"] = margin(rec)
+                pool.append(rec)
+                if len(pool) >= 8:
+                    break
+        if pool:
+            out.append(max(pool, key=lambda d: d["margin"]))
+    count += len(out)
+    while len(out) < count and tries < 200 and cand:
+        tries += 1
+        mode = modes[(len(out) + tries // 12) % len(modes)]
+        rec = attempt(mode, sum(1 for d in out if d["mode"] == "extreme"))
+        if rec is not None:
+            out.append(rec)
     return out
 
 
@@ -121,15 +189,18 @@ def correspondence(ctx):
     import liboracle as lo
     rep = ctx.report
     ctx.runs = []
-    plan = [("core_maths", 3, 2), ("core_maths", 4, 4), ("ext_maths", 4, 3)] if ctx.quick else [("core_maths", 3, 4), ("core_maths", 4, 4), ("ext_maths", 3, 2), ("ext_maths", 4, 2), ("keep_duplicates", 3, 2), ("core_maths", 5, 1)]
+    # (basis, complexity, data sets, of which additionally "marginal" ones)
+    plan = ([("core_maths", 3, 2, 1), ("core_maths", 4, 4, 1), ("ext_maths", 4, 3, 0), ("base_e_maths", 3, 1, 0)] if ctx.quick else
+            [("core_maths", 3, 4, 2), ("core_maths", 4, 4, 2), ("ext_maths", 3, 2, 1), ("ext_maths", 4, 2, 1), ("keep_duplicates", 3, 2, 1), ("core_maths", 5, 1, 0),
+             ("base_e_maths", 3, 2, 1), ("base_e_maths", 4, 2, 0), ("base10_maths", 3, 1, 0)])
     work, repo = fitlib.work_repo(ctx.scratch, "c04")
-    for runname, n, nds in plan:
+    for runname, n, nds, nmarg in plan:
         ok, err = fitlib.generate(repo, runname, [n])
         if not ok:
             rep.fail("failing-input", "generation fails %s n=%d: %s" % (runname, n, err[-300:]), "C04:generation-crash", input={"basis": runname, "n": n})
             continue
         lib = lo.load_library(fitlib.libdir(repo, runname, n), n)
-        for di, ds in enumerate(datasets(ctx, lib, n, nds)):
+        for di, ds in enumerate(datasets(ctx, lib, n, nds, nmarg)):
             ddir = os.path.join(work, "data_%s_%d_%d" % (runname, n, di))
             fitlib.write_data(ddir, "d.txt", ds["x"], ds["y"], ds["sig"])
             res = fitlib.run_stages(repo, "gauss", ddir, "d.txt", "r", runname, n, seed=ctx.seed % 100000 + di)
